@@ -251,3 +251,35 @@ def attach_b(rec: dict, rel: str, outb: str, resb: dict, excb=None, meta=None) -
 EMPTY_RES = {"nref": 0, "npred": 0, "tp": 0, "fp": 0, "fn": 0, "rq": TOK("absent"), "lists": {"_": []},
              "sq": {"_": TOK("skip")}, "std": {"_": TOK("skip")}, "pq": {"_": TOK("skip")},
              "glob": {"_": TOK("skip")}}
+
+
+# --------------------------------------------------------------------------------------
+# large-scale runs projected to the contingency table (Trace_EvalCT.tla)
+# --------------------------------------------------------------------------------------
+def rec_evaluate_ct(pred, ref, cfg: dict, dtype=np.uint16, meta=None) -> dict:
+    pred = np.asarray(pred).astype(dtype)
+    ref = np.asarray(ref).astype(dtype)
+    rl = [int(x) for x in np.unique(ref) if x]
+    pl = [int(x) for x in np.unique(pred) if x]
+    ri = {v: i + 1 for i, v in enumerate(rl)}
+    pi = {v: i + 1 for i, v in enumerate(pl)}
+    sr = [int((ref == v).sum()) for v in rl]
+    sp = [int((pred == v).sum()) for v in pl]
+    both = (ref != 0) & (pred != 0)
+    pairs, counts = np.unique(np.stack([ref[both].astype(np.uint64), pred[both].astype(np.uint64)], axis=1), axis=0, return_counts=True)
+    inter = [{"r": ri[int(a)], "p": pi[int(b)], "n": int(n)} for (a, b), n in zip(pairs, counts)]
+    same = [{"r": ri[v], "p": pi[v]} for v in rl if v in pi]
+    n = int(ref.size)
+    rec = {"sr": sr, "sp": sp, "inter": inter or [], "same": same or [], "cfg": cfg, "out": "ok", "res": EMPTY_RES,
+           "meta": dict(meta or {})}
+    rec["meta"].update({"dtype": str(np.dtype(dtype)), "shape": list(ref.shape), "n_ref": len(rl), "n_pred": len(pl),
+                        "max_count": max(sr + sp + [0])})
+    out, res_rec, exc = run_evaluate(pred, ref, cfg)
+    rec["out"], rec["res"] = out, res_rec
+    if exc:
+        rec["meta"].update(exc)
+    if out == "ok":
+        # aggregate fields are not judged at this scale (exact denominators exceed TLC's integers)
+        for k in ("sq", "std", "pq"):
+            rec["res"][k] = {m: TOK("skip") for m in rec["res"][k]}
+    return rec
